@@ -640,6 +640,17 @@ fn main() {
         // (6) integers
         ints::run(ctx);
 
+        if let Ok(f) = std::env::var("C08_ONLY") {
+            if !f.is_empty() {
+                // developer filter: the run is partial and must not be reported as exhaustive
+                ctx.custom(vmc::Custom {
+                    name: "C08_ONLY-filter".into(),
+                    exhaustive: false,
+                    capped: Some(format!("developer filter C08_ONLY={f}: other harnesses skipped")),
+                    ..Default::default()
+                });
+            }
+        }
         let tags: BTreeMap<&str, u64> = TAG_NAMES
             .iter()
             .enumerate()
